@@ -230,6 +230,17 @@ def step (st : St) (_n : Nat) (line : String) : St × List Finding :=
           (if getNat obs "upip" != getNat j "n4" then [⟨"C02", "UP F-SEID does not carry the agent's N4 address"⟩] else []) ++
           (if getStr obs "node" != getStr j "n4s" then [⟨"C02", s!"Node ID {getStr obs "node"} is not the agent's"⟩] else []) ++
           (if created obs != r.created then [⟨"model", s!"Created PDR {repr (created obs)}, model {repr r.created}"⟩] else []) ++
+          -- C02: one Created PDR element per UP-chosen F-TEID, and per UE address the UP allocated for a downlink PDR
+          (req.pdrs.filterMap fun p =>
+            let nT := ((created obs).filter fun c => c.pdrID = p.id ∧ c.teid.isSome).length
+            let nU := ((created obs).filter fun c => c.pdrID = p.id ∧ c.ue.isSome).length
+            let wantT := match p.fteid with | some (true, _, _) => 1 | _ => 0
+            let wantU := match p.ueip, p.srcIface with
+              | some (flags, _), some 1 => if st.cfg.ueAlloc ∧ needAllocIP flags then 1 else 0
+              | _, _ => 0
+            if nT != wantT then some ⟨"C02", s!"accepted establishment: {nT} Created PDR elements with an F-TEID for PDR {p.id}, whose F-TEID the UP {if wantT = 1 then "chose" else "did not choose"}"⟩
+            else if nU != wantU ∧ r.cause = 1 then some ⟨"C02", s!"accepted establishment: {nU} Created PDR elements with a UE address for downlink PDR {p.id}, for which the UP {if wantU = 1 then "allocated one" else "allocated none"}"⟩
+            else none) ++
           -- C07 / C06: reported identifiers are the programmed ones, addresses come from the pool
           ((created obs).filterMap fun c => match c.teid with
             | some (t, _) => if t = 0 then some ⟨"C07", "UP-chosen TEID 0"⟩ else
